@@ -7,9 +7,11 @@ package main
 
 import (
 	"bufio"
+	"bytes"
 	"encoding/hex"
 	"encoding/json"
 	"fmt"
+	"hash/fnv"
 	"math/rand"
 	"os"
 	"path/filepath"
@@ -144,6 +146,8 @@ type fsmWorld struct {
 	svc    fsmservice.FSMService
 	svcN   int
 	svcMon func(string)
+	// steps whose result has been compared with its own restored dump already
+	stepSeen map[uint64]bool
 }
 
 // storeRoundTrip: SaveFSM, then the three ways the node and the API read a round back (GetFSMInstance without
@@ -258,12 +262,49 @@ func (w *fsmWorld) do(idx int, ev string, args []string) (string, bool) {
 	ob := observe(inst, resp, derr, p)
 	w.last = inst
 	w.noteStep(idx, ev, args)
+	// C19: what comes back from the dump is the round that was in memory - every field, every stamp to the nanosecond (a
+	// deadline that moves by a fraction of a second in the dump changes what the restored round answers near it), every
+	// byte string byte for byte. After EVERY accepted step, not only those whose state the exploration keeps: a dump that
+	// normalises what the round holds makes two different rounds look like one state
+	if w.svcMon != nil && resp != nil && derr == nil && !p && w.firstTime(idx, ev, args) {
+		if bz, e := inst.Dump(); e == nil {
+			if restored, e := sm.FromDump(bz); e == nil {
+				if a, b := canonPayload(inst), canonPayload(restored); a != b {
+					w.svcMon(fmt.Sprintf("C19 restore_identity: a round in %s (after %s %s) comes back from its dump different from what was in memory %s", dumpStateOf(bz), ev, truncate(strings.Join(args, " "), 100), firstDiff(a, b)))
+				}
+			}
+		}
+	}
+	// C19 "every state a round can reach can be saved": the round object, restored from a stored dump, was handed the event
+	// and cannot be written down any more, whatever Do answered
+	if w.svcMon != nil && !p && strings.Contains(ob, "D{!dump-error}") {
+		_, e := inst.Dump()
+		cur, _ := inst.State()
+		w.svcMon(fmt.Sprintf("C19 unsavable: a round in %s was handed %s %s and is now in %s in memory, where it cannot be saved (Do answers error=%v; Dump: %v)",
+			dumpStateOf(w.store[idx]), ev, truncate(strings.Join(args, " "), 160), cur, derr != nil, e))
+	}
 	if w.mon != nil {
 		w.mon.check(w.store[idx], inst, ev, args, resp != nil && derr == nil && !p, resp == nil, p, idx)
 	}
 	w.emit(fmt.Sprintf("do %d %s %s", idx, ev, strings.Join(args, " ")), ob)
 	w.hist[ev+"/"+strings.SplitN(ob, " ", 2)[0]]++
 	return ob, resp != nil && derr == nil && !p
+}
+
+// firstTime: the step (stored state, event, arguments) has not been examined before (the exploration repeats its tree edges
+// once per alphabet item for the in-memory comparison)
+func (w *fsmWorld) firstTime(idx int, ev string, args []string) bool {
+	h := fnv.New64a()
+	fmt.Fprintf(h, "%d %s %s", idx, ev, strings.Join(args, " "))
+	k := h.Sum64()
+	if w.stepSeen == nil {
+		w.stepSeen = map[uint64]bool{}
+	}
+	if w.stepSeen[k] {
+		return false
+	}
+	w.stepSeen[k] = true
+	return true
 }
 
 func (w *fsmWorld) redo(ev string, args []string) string {
@@ -350,13 +391,9 @@ func (w *fsmWorld) keep() (int, bool) {
 		w.emit("keep", "kept-unrestorable")
 		return -1, false
 	}
-	// C19: what comes back is the round that was in memory - every field, every stamp to the nanosecond (a deadline that
-	// moves by a fraction of a second in the dump changes what the restored round answers near it)
-	if w.svcMon != nil {
-		if a, b := canonPayload(w.last), canonPayload(restored); a != b {
-			w.svcMon(fmt.Sprintf("C19 restore_identity: a round in %s comes back from its dump different from what was in memory %s", dumpStateOf(bz), firstDiff(a, b)))
-		}
-	}
+	// (C19 restore_identity - what comes back is the round that was in memory - is examined in do, after every accepted
+	// step, whether or not the resulting state is kept)
+	_ = restored
 	w.storeRoundTrip(bz)
 	w.unsavedStep()
 	w.store = append(w.store, bz)
@@ -377,6 +414,16 @@ var polyTokA, polyTokExt, polyTokC0, polyTokC1 = func() (string, string, string,
 	c1, _ := (&dkg.BLSKeyring{PubPoly: share.NewPubPoly(g, nil, []kyber.Point{c[0], c[2]})}).PubPolyBytes()
 	return hx(a), hx(e), hx(c0), hx(c1)
 }()
+
+// nonCanonicalPolys: the real polynomial encoding (JSON) in forms that json.Marshal would not emit itself, as hex tokens:
+// indented, and a JSON text with characters that encoding/json escapes ('<', '>', '&', U+2028)
+func nonCanonicalPolys() []string {
+	var ind bytes.Buffer
+	if err := json.Indent(&ind, unhexTok(polyTokA), "", "  "); err != nil {
+		panic("the real public polynomial is not JSON: " + err.Error())
+	}
+	return []string{hx(ind.Bytes()), hx([]byte("{\"PubPoly\": \"<a&b>\u2028\"}"))}
+}
 
 type alphaItem struct {
 	ev   string
@@ -442,6 +489,24 @@ func alphabet(n int, full bool) []alphaItem {
 	if n > 2 {
 		add("event_dkg_master_key_confirm_received", "masterKey", fmt.Sprint(n-1), "xaa", T(5), "x") // … as the last announcement
 	}
+	// the announced polynomial is a byte string the round keeps verbatim and compares byte by byte: the SAME announcement
+	// by two participants in forms that a JSON encoder would not emit itself - indented JSON, JSON with an unescaped '<'
+	// (the text that is no JSON at all is above) (C19: whatever the round holds comes back from the dump
+	// byte for byte; the second, identical announcement is answered alike in memory and after dump+restore)
+	// (by participant 1 and by the last one only: participant 0 announces the canonical form, so the signing states are not
+	// explored a second and third time with another polynomial)
+	ncp := nonCanonicalPolys()
+	add("event_dkg_master_key_confirm_received", "masterKey", "1", "xaa", T(5), ncp[0])
+	add("event_dkg_master_key_confirm_received", "masterKey", fmt.Sprint(n-1), "xaa", T(5), ncp[1])
+	// an answer to the invitation naming an id that was never invited, stamped after the invitation deadline (the unknown
+	// id AND the late stamp on one event), from every state - in particular with no and with one answer recorded
+	for _, p := range []int{n} {
+		add("event_sig_proposal_confirm_by_participant", "sigPart", fmt.Sprint(p), late)
+		add("event_sig_proposal_decline_by_participant", "sigPart", fmt.Sprint(p), late)
+	}
+	// … and the same in the key generation: an uninvited id with a late stamp
+	add("event_dkg_commit_confirm_received", "commit", fmt.Sprint(n), "x01", late)
+	add("event_dkg_commit_confirm_canceled_by_error", "dkgErr", fmt.Sprint(n), hs("e"), late)
 	add("event_dkg_commit_confirm_canceled_by_error", "dkgErr", "0", "-", T(2))
 	add("event_signing_partial_sign_received", "partialSigns", hs("B"), "0", T(7), "1", hs("m1"), "x21") // other batch id
 	add("event_signing_partial_sign_received", "partialSigns", hs("A"), "0", T(7), "0")                  // empty
